@@ -795,6 +795,20 @@ fn word_sequences(m: &Model, ctx: &mut Ctx) {
                 ctx.violate("C13.words", &format!("literal-with-blank:{}:{}", f.name, lit.replace(' ', "_")), &f.file, model::line_of(syn::spanned::Spanned::span(&c)),
                     &format!("`{}` matches `{}` as one literal: the words are separate tokens, so `{}` written with two blanks, a line break or a comment between the words is rejected", f.name, lit, lit));
             }
+            // the same for punctuation: X.680 clause 12 knows these items of more than one character; any other run of
+            // punctuation matched as one literal (`{}`, `::`, `),`) glues two tokens together (`.&` is audited: a field name
+            // begins with `&` and is written directly behind the dot in every module of the corpus)
+            const ITEMS: [&str; 8] = ["::=", "..", "...", "[[", "]]", "--", "/*", "*/"];
+            // (fn or "*", literal, reason)
+            const AUDITED: [(&str, &str, &str); 2] = [
+                ("*", ".&", "a field name begins with `&` and is written directly behind the dot in every module of the corpus"),
+                ("iri_value", "\"/", "the opening quotation mark and first slash of an IRI value: inside one string token"),
+            ];
+            let t = lit.trim();
+            if t.chars().count() >= 2 && t.chars().all(|ch| ch.is_ascii_punctuation()) && !ITEMS.contains(&t) && !AUDITED.iter().any(|(g, l, _)| *l == t && (*g == "*" || *g == f.name)) {
+                ctx.violate("C13.words", &format!("glued-punctuation:{}:{}", f.name, t), &f.file, model::line_of(syn::spanned::Spanned::span(&c)),
+                    &format!("`{}` matches `{}` as one literal: these are {} tokens, so a blank, a line break or a comment between them is rejected although it is legal there", f.name, t, t.chars().count()));
+            }
         }
     }
     ctx.floor("C13.words/tag-literals", sites, 100);
